@@ -49,12 +49,15 @@ var capMatchers = []pipe.MatcherSpec{
 	{Kind: "none"},
 }
 
-var capExtracts = []string{`{0}`, `{0}`, `{1}|{2}`, `{key}/{val}`, `{@}`, `{src}:{line}:{1}`, `{5}{4}{3}`, `{file}{n}`, `{9}x`}
+var capExtracts = []string{`{0}`, `{0}`, `{1}|{2}`, `{key}/{val}`, `{@}`, `{src}:{line}:{1}`, `{5}{4}{3}`, `{file}{n}`, `{9}x`, `{1}`, `[{1}|{2}|{3}|{key}|{tail}]`}
 
 var words = []string{"a", "aa", "aab", "b", "bbb", "abcd", "abbcd", "x", "K9", "zed", "ab", "bcd"}
 
 func genCaptures(r *run.Rand, reader bool, thorough bool, pauses int) *pipe.Workload {
 	w := &pipe.Workload{Scenario: "captures", Matcher: capMatchers[r.Intn(len(capMatchers))], Extract: capExtracts[r.Intn(len(capExtracts))], Seed: r.U64()}
+	if r.Intn(3) == 0 {
+		w.Matcher = pipe.GenRegex(r) // generated pattern: literal-only with groups, nested / optional / lazy groups, anchors
+	}
 	nIn := 1
 	if !reader {
 		nIn = r.Range(1, 6)
